@@ -163,6 +163,7 @@ type World struct {
 	beforeDistribute func(b *types.Block, p *Replica)
 	// OnBlock observers run after a block was inserted into every replica
 	OnBlock []func(w *World, b *types.Block)
+	scratch []*Replica // scratch replicas booted by tmpReplica (disposed by Cleanup)
 }
 
 // ConsensusFor returns a private copy of the consensus config of a version.
@@ -272,6 +273,7 @@ type Replica struct {
 	Alive    bool
 	Observer bool           // follows the chain but never proposes and gets no gossip (harness-controlled pool)
 	Zone     *time.Location // host time zone of this node (nil = leave time.Local alone)
+	disposed bool
 }
 
 // enter makes r the "current host": its time zone becomes the process-local zone. Replicas
@@ -660,6 +662,12 @@ func (w *World) SortedActors() []*Actor {
 
 // Cleanup removes scratch directories of this world.
 func (w *World) Cleanup() {
+	// give the memory of the scratch replicas of this world back (see Replica.Dispose); the
+	// registered replicas may still be touched by node goroutines of harnesses that run them live
+	for _, r := range w.scratch {
+		r.Dispose()
+	}
+	w.scratch = nil
 	for i := 1; i <= w.dirSeq; i++ {
 		// names are vsim-<seed>-<tag>-<n>; remove by glob
 	}
